@@ -57,8 +57,10 @@ func (s *sigWriter) ws() {
 
 func (s *sigWriter) call(depth int) {
 	g := s.g
-	name := "unknownfn"
-	if g.Chance(85) {
+	// unknown names: also ones that resemble a declared name (namespaced variants whose last
+	// segment is declared, the bare last segment of a namespaced declaration, prefixes, other case)
+	name := gen.Pick(g, []string{"unknownfn", "unknownfn", "ns::join", "provider::x::f", "core::g", "h", "ns::zero", "joi", "joinx", "JOIN", "ns::ns::h"})
+	if g.Chance(80) {
 		name = gen.Pick(g, s.names)
 	}
 	s.sb.WriteString(name)
